@@ -10,6 +10,7 @@
    failing-input search of harness/src/bin/c01.rs only. *)
 Require Import Base Overlap TokenSeq Pattern PatternCost PatternImpls Tables_patterns GoDirective TokenSeqProofs PatternProofs PatternCostProofs C01History.
 Require Import C01Len C01LenProofs Tables_rulebodies C01RuleBodies C01EndToEnd C01EndToEndProofs.
+Require Import C01Bodies Tables_bodyshapes C01BodiesProofs.
 (* C02's lexer model and proofs (not imported: its token type has the same name as ours) *)
 Require Lexer LexerProofs Condense.
 
@@ -388,6 +389,105 @@ Check C01_plain_english_rule_bodies : forall abs : Lexer.token -> tok, (forall t
 Print Assumptions C01_plain_english_rule_bodies.
 
 (* ---- non-vacuity ---- *)
+(* ====================== phase 4 ======================
+   The two `impl PatternLinter for` rules the literal-use table cannot classify, as line-by-line models of their
+   match_to_lint (Model/C01Bodies.v; the Rust text is pinned by tools/tables/bodyshapes.py, which raises when it changes).
+
+   ModalOf::match_to_lint returns normally on EVERY slice of tokens that lie inside the text — no premise on the pattern:
+   `match words.len() {2 => 0, 3 => .., _ => return None}` guards words[modal_word] and words[modal_word + 1];
+   iter_word_indices is strictly increasing and below len, so matched_toks[modal_index..=of_index] is in range and not
+   empty, its `.span().unwrap()` is Some and lies inside the text, so both get_content calls return. *)
+Theorem C01_modal_of_body_total : forall (src : text) mt, Forall (in_src (length src)) mt ->
+  exists r, modal_of_body mt src = Ok r /\ forall sp, r = Some sp -> span_inside (length src) sp.
+Proof. exact modal_of_body_total. Qed.
+Check C01_modal_of_body_total : forall (src : text) mt, Forall (in_src (length src)) mt ->
+  exists r, modal_of_body mt src = Ok r /\ forall sp, r = Some sp -> span_inside (length src) sp.
+Print Assumptions C01_modal_of_body_total.
+
+(* … and through run_on_chunk with the pattern ModalOf::default builds (generated: Tables_bodyshapes.modal_of_pattern) *)
+Theorem C01_modal_of_rule_total : forall leaf oracle (src : text) chunk l, Forall (in_src (length src)) chunk ->
+  run_on_chunk leaf oracle modal_of_pattern chunk src = Ok l ->
+  exists outs, bodies_on modal_of_body chunk src l = Ok outs.
+Proof. exact modal_of_rule_total. Qed.
+Check C01_modal_of_rule_total : forall leaf oracle (src : text) chunk l, Forall (in_src (length src)) chunk ->
+  run_on_chunk leaf oracle modal_of_pattern chunk src = Ok l ->
+  exists outs, bodies_on modal_of_body chunk src l = Ok outs.
+Print Assumptions C01_modal_of_rule_total.
+
+(* ProperNounCapitalizationLinter::match_to_lint: `self.pattern_map.lookup(matched_tokens, source).unwrap()` looks the
+   MATCHED slice up a second time.  It finds a row because every row is an ExactPhrase, whose parts look only at the
+   tokens they consume (row_local; prefix stability: a non-zero answer on tokens is the same answer on the prefix of
+   that length), and rows before it return on good tokens.  Premise on the rows: row_local — C01_exact_phrase_rows_local
+   shows ExactPhrase::from_document builds nothing else; premise on tokens: toks_good (inside the text, closures return). *)
+Theorem C01_proper_noun_body_total : forall leaf oracle (src : text) rows canon,
+  Forall (fun q => row_local q = true) rows ->
+  forall ts m, toks_good leaf src ts ->
+  matches leaf oracle (PMap rows) ts src = Ok m -> m <> 0 ->
+  exists r, proper_noun_body leaf oracle rows canon (firstn m ts) src = Ok r /\
+            forall sp, r = Some sp -> span_inside (length src) sp.
+Proof. exact proper_noun_body_total. Qed.
+Check C01_proper_noun_body_total : forall leaf oracle (src : text) rows canon,
+  Forall (fun q => row_local q = true) rows ->
+  forall ts m, toks_good leaf src ts ->
+  matches leaf oracle (PMap rows) ts src = Ok m -> m <> 0 ->
+  exists r, proper_noun_body leaf oracle rows canon (firstn m ts) src = Ok r /\
+            forall sp, r = Some sp -> span_inside (length src) sp.
+Print Assumptions C01_proper_noun_body_total.
+
+Theorem C01_proper_noun_rule_total : forall leaf oracle (src : text) rows canon,
+  Forall (fun q => row_local q = true) rows ->
+  forall chunk l, toks_good leaf src chunk ->
+  run_on_chunk leaf oracle (PMap rows) chunk src = Ok l ->
+  Forall (fun ab => exists r, proper_noun_body leaf oracle rows canon (slice chunk (fst ab) (snd ab)) src = Ok r) l.
+Proof. exact proper_noun_rule_total. Qed.
+Check C01_proper_noun_rule_total : forall leaf oracle (src : text) rows canon,
+  Forall (fun q => row_local q = true) rows ->
+  forall chunk l, toks_good leaf src chunk ->
+  run_on_chunk leaf oracle (PMap rows) chunk src = Ok l ->
+  Forall (fun ab => exists r, proper_noun_body leaf oracle rows canon (slice chunk (fst ab) (snd ab)) src = Ok r) l.
+Print Assumptions C01_proper_noun_rule_total.
+
+Theorem C01_exact_phrase_rows_local : forall l p, exact_phrase_of l = Ok p -> row_local p = true.
+Proof. exact exact_phrase_of_local. Qed.
+Check C01_exact_phrase_rows_local : forall l p, exact_phrase_of l = Ok p -> row_local p = true.
+Print Assumptions C01_exact_phrase_rows_local.
+
+(* the prefix-stability lemma itself, for every local row *)
+Theorem C01_local_row_prefix_stable : forall leaf oracle (src : text) q ts k m, row_local q = true ->
+  matches leaf oracle q ts src = Ok m -> m <> 0 -> m <= k -> matches leaf oracle q (firstn k ts) src = Ok m.
+Proof. exact row_local_prefix. Qed.
+Check C01_local_row_prefix_stable : forall leaf oracle (src : text) q ts k m, row_local q = true ->
+  matches leaf oracle q ts src = Ok m -> m <> 0 -> m <= k -> matches leaf oracle q (firstn k ts) src = Ok m.
+Print Assumptions C01_local_row_prefix_stable.
+
+(* a struct rule: RepeatedWords::lint — `&chunk[idx_a + 1..*idx_b]` for neighbouring word indices never slices out of
+   range, on EVERY chunk (the indices come from iter_word_indices: strictly increasing, below len) *)
+Theorem C01_repeated_words_slice_total : forall chunk, repeated_words_uses chunk = Ok tt.
+Proof. exact repeated_words_slice_total. Qed.
+Check C01_repeated_words_slice_total : forall chunk, repeated_words_uses chunk = Ok tt.
+Print Assumptions C01_repeated_words_slice_total.
+
+(* the census of the struct rules (`impl Linter for`, 22 of them): 63 unwrap / expect / index / slice / panicking-macro /
+   Span::new sites in 17 rules, 5 rules without any; 3 sites are covered by theorems above, the other 60 are NAMED in
+   Tables_bodyshapes.struct_rule_sites (regenerated on every run) and reached by search only.  The functions whose text
+   the hand-written models follow are pinned.  A change in any of these numbers breaks this theorem. *)
+Theorem C01_struct_rule_census :
+  pinned_bodies = expected_pinned /\
+  List.length struct_rules_all = 22 /\
+  List.length struct_rules_no_site + List.length rules_with_sites = List.length struct_rules_all /\
+  List.length struct_rule_sites = 63 /\
+  count_kind k_unwrap + count_kind k_expect + count_kind k_index + count_kind k_span_new + count_kind k_macro = 63 /\
+  List.length struct_sites_proved = 3.
+Proof. exact struct_rule_census. Qed.
+Check C01_struct_rule_census :
+  pinned_bodies = expected_pinned /\
+  List.length struct_rules_all = 22 /\
+  List.length struct_rules_no_site + List.length rules_with_sites = List.length struct_rules_all /\
+  List.length struct_rule_sites = 63 /\
+  count_kind k_unwrap + count_kind k_expect + count_kind k_index + count_kind k_span_new + count_kind k_macro = 63 /\
+  List.length struct_sites_proved = 3.
+Print Assumptions C01_struct_rule_census.
+
 (* the premises of C01_pattern_bounded hold for "I know the how" with closures / oracles that return,
    and the theorem's conclusion is the interesting one there: TheHowWhy's pattern on the last three
    tokens answers 0 (not 4, as it did before the fix), a plain sequence answers 3 *)
@@ -457,3 +557,20 @@ Proof.
   cbv zeta. split; [|split; vm_compute; reflexivity].
   intros t. unfold abs_of. destruct (find _ _); reflexivity.
 Qed.
+
+(* phase 4: ModalOf on "I should\n of" (two whitespace tokens between the words) flags `should\n of` = 2..12; a slice with
+   four words gives None; "south america" against the row ExactPhrase::from_document builds for "South America" is flagged
+   whole; a row that looks past what it consumes is what row_local excludes (the second lookup then panics) *)
+Example C01_bodies_nonvacuous :
+  Forall (in_src (List.length ex_modal_src)) ex_modal_toks /\
+  rule_lint ex_true ex_otrue modal_of_body modal_of_pattern ex_modal_toks ex_modal_src = Ok [Some (mkspan 2 12)] /\
+  modal_of_body (xw 0 1 :: xs 1 2 :: ex_modal_toks) ex_modal_src = Ok None /\
+  exact_phrase_of [FWord (ch [83; 111; 117; 116; 104]); FSpace; FWord (ch [65; 109; 101; 114; 105; 99; 97])] = Ok ex_pn_row /\
+  rule_lint ex_true ex_otrue (proper_noun_body ex_true ex_otrue [ex_pn_row] ex_pn_canon) (PMap [ex_pn_row]) ex_pn_toks ex_pn_src
+    = Ok [Some (mkspan 0 13)] /\
+  (let bad := PSeq [PFlag F_WORD; PInvert (PConsumes PWhitespace)] in
+   row_local bad = false /\
+   matches ex_true ex_otrue (PMap [bad]) ex_pn_toks ex_pn_src = Ok 2 /\
+   proper_noun_body ex_true ex_otrue [bad] [] (firstn 2 ex_pn_toks) ex_pn_src = Panic PUnwrap) /\
+  pairs_adjacent (word_indices ex_modal_toks) = [(0, 2); (2, 5)].
+Proof. exact bodies_examples. Qed.
